@@ -396,13 +396,19 @@ PROPS = {
         "level": "other",
         "units": ["nsecval"],
         "kani": [],
-        "explanation": "decides one clause of the statement only -- 'no upstream NSEC3 owner label makes the validator panic': "
+        "explanation": "decides two small clauses of the statement only. 'No upstream NSEC3 owner label makes the validator panic': "
                        "validator::nsec::nsec3_label_to_hash (real text; core::str::from_utf8 and OwnerHash::from_str stubbed with "
-                       "arbitrary results) has no reachable expect/unwrap/panic for any label.",
+                       "arbitrary results) has no reachable expect/unwrap/panic for any label. The interval predicates every "
+                       "denial proof rests on: nsec_in_range == 'owner < target < next, the last NSEC of the zone covering "
+                       "everything after its owner' and nsec3_in_range == the circular interval of RFC 5155 8.3 (real text, "
+                       "comparison operators written as method calls on models carrying the position in the total order).",
         "not_covered": "Soundness of 'secure' (signature chains to a trust anchor, NSEC/NSEC3 proofs), insecure-delegation handling, "
                        "every other panic site of the validator (e.g. get_checked_nsec's panic!(\"NSEC expected\"), "
-                       "nsec3_hash(..).unwrap()), loops: async code over caches and crypto, out of reach. nsec_in_range / "
-                       "nsec3_in_range compare generic names/hashes with operators and could not be extracted mechanically.",
+                       "nsec3_hash(..).unwrap()), loops: async code over caches and crypto, out of reach.",
+        "assumptions": [
+            "names and NSEC3 hashes are compared through a total order (C04: name_cmp, octet order); modelled by an integer key",
+            "core::str::from_utf8 and OwnerHash::from_str (Base32hex, C18) return Ok or Err, never panic",
+        ],
     },
     "C09": {
         "level": "other",
